@@ -24,6 +24,8 @@ type build struct {
 	fwd     bool
 	fwdErr  string
 	addr    []string // address listings handed to this build, in order ("!err" = failed)
+	addrIf  []string // the interface each of those listings was taken from
+	addrIdx []int    // ... and the interface index that was asked for
 	routes  []string // per loopback index route listings, in order
 	loopErr string
 	logs    []string
@@ -69,6 +71,7 @@ type generation struct {
 	gen     int
 	dialSeq int
 	mac     string
+	index   int   // interface index this generation was dialed with
 	t0      int64 // dial.exit
 	endSeq  int   // first event after which the generation is torn down (0 = never)
 	tEnd    int64
@@ -129,7 +132,7 @@ func analyse(ev []verifsim.Event) *history {
 			endGen(e.Node, e.If, e.Seq, e.T)
 		case "dial.exit":
 			if e.Err == "" {
-				g := &generation{node: e.Node, ifn: e.If, gen: e.Gen, dialSeq: e.Seq, t0: e.T, mac: e.S}
+				g := &generation{node: e.Node, ifn: e.If, gen: e.Gen, dialSeq: e.Seq, t0: e.T, mac: e.S, index: int(e.V)}
 				h.gens = append(h.gens, g)
 				h.byKey[genKey(e.Node, e.If, e.Gen)] = g
 				cur[fmt.Sprintf("%d|%s", e.Node, e.If)] = g
@@ -167,6 +170,12 @@ func analyse(ev []verifsim.Event) *history {
 				} else {
 					b.addr = append(b.addr, e.S)
 				}
+				if e.If == "" {
+					b.addrIf = append(b.addrIf, fmt.Sprintf("<index %d>", e.V))
+				} else {
+					b.addrIf = append(b.addrIf, e.If)
+				}
+				b.addrIdx = append(b.addrIdx, int(e.V))
 				b.t2 = e.T
 				if t0, ok := parkStart[e.Ref]; ok {
 					b.held += e.T - t0
@@ -236,6 +245,29 @@ func (h *history) first(pred func(e *verifsim.Event) bool) *verifsim.Event {
 		}
 	}
 	return nil
+}
+
+// staleIndexRelevant reports whether, at event seq, the interface had been
+// re-created (reindex) AND re-dialed since: only then is a listing by the old
+// index a defect (until the re-dial the daemon cannot know the new index).
+func staleIndexRelevant(ev []verifsim.Event, node int, ifn string, seq int) bool {
+	reindexed, redialed := false, false
+	for i := range ev {
+		e := &ev[i]
+		if e.Seq >= seq {
+			break
+		}
+		if e.Node != node || e.If != ifn {
+			continue
+		}
+		switch {
+		case e.K == "act.reindex":
+			reindexed, redialed = true, false
+		case e.K == "dial.exit" && e.Err == "" && reindexed:
+			redialed = true
+		}
+	}
+	return reindexed && redialed
 }
 
 func isAllNodes(a netip.Addr) bool { return a == netip.IPv6LinkLocalAllNodes() }
